@@ -344,9 +344,11 @@ impl Cfg {
             entry: rng.below(3) as usize,
         }
     }
-    /// tolerance relative to the size of the path (base tolerance at coordinates up to 8)
+    /// tolerance relative to the extent of the path (base tolerance for an extent of about 8)
     fn for_spec(mut self, spec: &Spec) -> Cfg {
-        let s = spec.scale();
+        let pts = spec.all_points();
+        let ext = |f: &dyn Fn(&Point) -> f32| pts.iter().map(f).fold(f32::MIN, f32::max) - pts.iter().map(f).fold(f32::MAX, f32::min);
+        let s = (ext(&|p| p.x).max(ext(&|p| p.y)) as f64).max(spec.scale() * 1e-3);
         if !(s >= 2.0 && s <= 16.0) {
             self.tol = (self.tol as f64 * s.max(1e-6) / 8.0) as f32;
         }
@@ -549,6 +551,26 @@ fn inside_level(a: Point, b: Point, v: Point, o: Orientation, lt: f64) -> bool {
     (a.y - b.y).abs() <= lt && (v.y - a.y).abs() <= lt
 }
 
+/// Class of a wrong parameter on a level (sweep-horizontal) edge or chord A→B whose carrier line
+/// holds `v`. `level-edge-rounding`: rounding is visibly involved — the chord itself is not exactly
+/// level (jittered flattening of a degenerate curve), or some output vertex on the carrier line is
+/// rounded off the level (an intersection with a level edge computed an ulp above or below it,
+/// which changes `is_after` / `compare_positions` decisions along the edge: cut-off parts get
+/// flipped, the "lower" of two coincident edges is not the longer one, parameters are extrapolated).
+/// `coincident-level-edges`: everything exactly level — the defect repaired by 456c058b, a regression.
+fn level_class(a: Point, b: Point, v: Point, verts: &[VRec], o: Orientation, lt: f64) -> Option<&'static str> {
+    if !inside_level(a, b, v, o, lt) {
+        return None;
+    }
+    let (sa, sb) = (sweep(a, o), sweep(b, o));
+    let jitter = sa.y != sb.y
+        || verts.iter().any(|w| {
+            let dy = (sweep(w.pos, o).y - sa.y).abs() as f64;
+            dy > 0.0 && dy <= lt
+        });
+    Some(if jitter { "level-edge-rounding" } else { "coincident-level-edges" })
+}
+
 /// Witness class of an endpoint source (or `as_endpoint_id`) that is not at the vertex.
 ///
 /// `reversed-curve`: `id` is one end of a curve whose start is after its end in sweep order and
@@ -571,8 +593,11 @@ fn classify_endpoint(geom: &HashMap<(u32, u32), Geom>, pid: Point, v: Point, o: 
     for k in &keys {
         let g = &geom[*k];
         if g.a == pid || g.seg.to() == pid {
-            if flatten_seg(g.a, &g.seg, false, tol, o).iter().chain(flatten_seg(g.a, &g.seg, true, tol, o).iter()).any(|(pa, pb, _, _)| inside_level(*pa, *pb, v, o, lt)) {
-                return "coincident-level-edges";
+            let mut cls: Vec<&'static str> = flatten_seg(g.a, &g.seg, false, tol, o).iter().chain(flatten_seg(g.a, &g.seg, true, tol, o).iter()).filter_map(|(pa, pb, _, _)| level_class(*pa, *pb, v, verts, o, lt)).collect();
+            cls.sort();
+            if let Some(c) = cls.last() {
+                // (`level-edge-rounding` sorts after `coincident-level-edges`: jitter anywhere wins)
+                return c;
             }
         }
     }
@@ -746,20 +771,18 @@ fn check_run_inner(spec: &Spec, at: &AttrSpec, cfg: &Cfg, run: &Run, orc: &mut F
                     None => orc.check(false, "fill.vertex/edge-source-known", "generic", || format!("vertex {} source edge {}->{} is not an edge of the path", vi, from.0, to.0)),
                     Some(g) => {
                         let tt = t as f64;
-                        orc.check(tt.is_finite() && tt >= -1e-6 && tt <= 1.0 + 1e-6, "fill.vertex/edge-source-parameter-range", "generic", || {
-                            format!("vertex {} at {:?}: edge {}->{} t = {}", vi, v.pos, from.0, to.0, t)
-                        });
+                        let range_ok = tt.is_finite() && tt >= -1e-6 && tt <= 1.0 + 1e-6;
+                        let clause = |c: &'static str| if range_ok { c } else { "fill.vertex/edge-source-parameter-range" };
                         match &g.seg {
                             Seg::Line(b) => {
                                 let q = lerp64(g.a, *b, tt);
                                 let d = dist64(q, v.pos);
-                                if !(d <= env) {
-                                    let class = if inside_level(g.a, *b, v.pos, cfg.orientation, lvl) {
-                                        "coincident-level-edges"
-                                    } else {
-                                        classify(&run.verts, vi, g.a, *b, from, to, tt, env + cfg.tol as f64 + 1e-3, 0.0, 1.0)
-                                    };
-                                    orc.check(false, "fill.vertex/edge-source-position", class, || {
+                                if !(d <= env) || !range_ok {
+                                    let mut class = classify(&run.verts, vi, g.a, *b, from, to, tt, env + cfg.tol as f64 + 1e-3, 0.0, 1.0);
+                                    if class == "generic" {
+                                        class = level_class(g.a, *b, v.pos, &run.verts, cfg.orientation, lvl).unwrap_or("generic");
+                                    }
+                                    orc.check(false, clause("fill.vertex/edge-source-position"), class, || {
                                         format!("vertex {} at {:?}: edge {:?}->{:?} t = {} is ({:.6},{:.6}), {:.3e} away (allowed {:.1e})", vi, v.pos, g.a, b, t, q.0, q.1, d, env)
                                     });
                                 }
@@ -779,28 +802,27 @@ fn check_run_inner(spec: &Spec, at: &AttrSpec, cfg: &Cfg, run: &Run, orc: &mut F
                                     // polyline with the parameter measured from `from`
                                     d = d.min(at_param(&rflat, 1.0 - tt).map_or(f64::INFINITY, |h| dist64(h.3, v.pos)));
                                 }
-                                if !(d <= env) {
+                                if !(d <= env) || !range_ok {
                                     let rhit = at_param(&rflat, tt);
-                                    let class = if reversed && rhit.map_or(false, |h| dist64(h.3, v.pos) <= env) {
+                                    let mut lv: Vec<&'static str> = flat.iter().chain(rflat.iter()).filter_map(|(pa, pb, _, _)| level_class(*pa, *pb, v.pos, &run.verts, cfg.orientation, lvl)).collect();
+                                    lv.sort();
+                                    // the chord that carries the reported parameter, under each
+                                    // reading of it (measured from `from` / as stored before 8662f1bc)
+                                    let mut cands = vec![hit, rhit];
+                                    if reversed {
+                                        cands.push(at_param(&rflat, 1.0 - tt).map(|h| (h.1, h.0, 1.0 - h.2, h.3, 1.0 - h.5, 1.0 - h.4)));
+                                    }
+                                    let class = if cands.iter().flatten().any(|(pa, pb, u, _, t0, t1)| {
+                                        classify(&run.verts, vi, *pa, *pb, from, to, *u, env + cfg.tol as f64 + 1e-3, *t0, *t1) != "generic"
+                                    }) {
+                                        "split-at-vertex-then-cut"
+                                    } else if reversed && rhit.map_or(false, |h| dist64(h.3, v.pos) <= env) {
+                                        // the defect repaired by 8662f1bc: a regression
                                         "reversed-curve"
-                                    } else if flat.iter().chain(rflat.iter()).any(|(pa, pb, _, _)| inside_level(*pa, *pb, v.pos, cfg.orientation, lvl)) {
-                                        "coincident-level-edges"
                                     } else {
-                                        // the chord that carries the reported parameter, under each
-                                        // reading of it (as stored today / measured from `from`)
-                                        let mut cands = vec![hit, rhit];
-                                        if reversed {
-                                            cands.push(at_param(&rflat, 1.0 - tt).map(|h| (h.1, h.0, 1.0 - h.2, h.3, 1.0 - h.5, 1.0 - h.4)));
-                                        }
-                                        if cands.iter().flatten().any(|(pa, pb, u, _, t0, t1)| {
-                                            classify(&run.verts, vi, *pa, *pb, from, to, *u, env + cfg.tol as f64 + 1e-3, *t0, *t1) != "generic"
-                                        }) {
-                                            "split-at-vertex-then-cut"
-                                        } else {
-                                            "generic"
-                                        }
+                                        lv.last().copied().unwrap_or("generic")
                                     };
-                                    orc.check(false, "fill.vertex/curve-source-position", class, || {
+                                    orc.check(false, clause("fill.vertex/curve-source-position"), class, || {
                                         format!("vertex {} at {:?}: curve from {:?} {:?} t = {}: flattened curve at t is {:?}, {:.3e} away (allowed {:.1e})", vi, v.pos, g.a, curve, t, hit.map(|h| h.3), d, env)
                                     });
                                 }
